@@ -48,7 +48,7 @@ BASE = dict(
     max_steps=60, evo_steps=20, learn_step=2, batch_size=4, delay=0, cap=64, nstep=3,
     tm=False, elitism=True, mutate_elite=True, tsize=2, mut="mixed", ckpt=None, overwrite=False,
     episode_steps=10, eval_steps=3, eval_loop=1, target=None, seed=0, strict=True, fault=None,
-    ep_len=7, via="build", timeout=90, ls_spread=0,
+    ep_len=7, via="build", timeout=120, ls_spread=0,
 )
 
 LOOP_ALGOS = {
@@ -868,6 +868,8 @@ def gen_cases(rng, tier: str) -> list[dict]:
         else:
             kw.update(episode_steps=rng.choice([4, 6, 10]), evo_steps=rng.choice([8, 10, 20]), max_steps=rng.choice([20, 30, 40]),
                       learn_step=rng.choice([1, 2, 3]), eval_steps=3)
+        if loop == "maoff" and kw.get("family") in ("image", "dict", "tuple"):
+            kw.update(max_steps=40, evo_steps=min(kw["evo_steps"], 15))      # multi-input critics are slow
         add(**kw)
     return cases
 
@@ -957,6 +959,14 @@ def tags_of(res: dict) -> list[str]:
 
 def run_cases(chk: Check, pool: Pool, cases: list[dict], suite: str, expect_detect: bool = False) -> int:
     results = pool.map([(i, c) for i, c in enumerate(cases)])
+    # a run killed by the wall-clock guard gets one more chance with four times the allowance, so that a
+    # slow machine is not reported as "does not terminate"
+    slow = [i for i, c in enumerate(cases) if results[i]["status"] == "timeout"]
+    if slow and not expect_detect:
+        again = pool.map([(i, dict(cases[i], timeout=4 * full(cases[i])["timeout"])) for i in slow])
+        for i in slow:
+            results[i] = again[i]
+            chk.notes.append(f"case {i} needed the extended wall-clock allowance")
     ndiff = detected = 0
     for i, c in enumerate(cases):
         res = results[i]
